@@ -138,6 +138,13 @@ pub static VIOLATIONS: std::sync::Mutex<Vec<(String, String, Value)>> = std::syn
 pub fn record(key: &str, what: String, case: Value) {
     let mut v = VIOLATIONS.lock().unwrap();
     if v.iter().filter(|x| x.0 == key).count() < 3 {
+        // also on disk at once: if the subject takes the process down later, the supervisor still has it
+        if let Ok(p) = std::env::var("VERIF_SCHED_CUR") {
+            use std::io::Write;
+            if let Ok(mut f) = std::fs::OpenOptions::new().create(true).append(true).open(format!("{}.viol", p)) {
+                let _ = writeln!(f, "{}", vcommon::serde_json::json!({"key": key, "summary": what, "replay": case}));
+            }
+        }
         v.push((key.to_string(), what, case));
     }
 }
@@ -159,6 +166,10 @@ fn main() {
         std::process::exit(2);
     }
     rust_side::install_hooks();
+    if args.extra.get("child").map(|s| s.as_str()) == Some("pooltasks") {
+        rust_side::pool_tasks_child();
+        return;
+    }
     if args.extra.get("child").map(|s| s.as_str()) == Some("fresh") {
         rust_side::fresh_process_child();
         return;
@@ -166,20 +177,123 @@ fn main() {
     if let Some(path) = &args.replay {
         let text = std::fs::read_to_string(path).expect("replay file");
         let v: Value = vcommon::serde_json::from_str(&text).expect("replay json");
-        // scenarios are small and deterministic: re-run the property's quick exploration and look for the key
-        let a = Args { report: "/verif/out/sched-replay.json".into(), replay: None, tier: "quick".into(), ..args.clone() };
-        let mut rep = Report::new(&a, "replay", "model_checking");
-        run(&a, &mut rep);
-        for x in rep.violations.iter().take(3) {
-            println!("violation {}: {}", x.key, x.summary);
+        // scenarios are small and deterministic: re-run the property's quick exploration (supervised, in a
+        // child process, like the original run) and look for the same key
+        let tmp = "/verif/out/sched-replay.json".to_string();
+        let _ = std::fs::remove_file(&tmp);
+        let st = std::process::Command::new(std::env::current_exe().unwrap())
+            .args(["--prop", &args.prop, "--tier", "quick", "--seed", &args.seed.to_string(), "--report", &tmp])
+            .status()
+            .expect("spawn replay run");
+        let mut hit = false;
+        if st.success() {
+            if let Ok(t) = std::fs::read_to_string(&tmp) {
+                if let Ok(r) = vcommon::serde_json::from_str::<Value>(&t) {
+                    for x in r["violations"].as_array().cloned().unwrap_or_default().iter().take(3) {
+                        println!("violation {}: {}", x["key"].as_str().unwrap_or(""), x["summary"].as_str().unwrap_or(""));
+                    }
+                    // what a corrupted process does next varies from run to run (wrong result, crash, hang):
+                    // the members of that family reproduce one another
+                    let family = |k: &str| k.contains("isolation:") || k.contains("schedule-dependent") || k.contains("order-dependent");
+                    let want = v["check"].as_str().unwrap_or("");
+                    hit = r["violations"].as_array().map(|a| a.iter().any(|x| {
+                        let k = x["key"].as_str().unwrap_or("");
+                        k == want || (family(k) && family(want))
+                    })).unwrap_or(false);
+                }
+            }
         }
-        let hit = rep.violations.iter().any(|x| Some(x.key.as_str()) == v["check"].as_str());
         println!("{}", if hit { "REPRODUCED" } else { "NOT-REPRODUCED" });
         std::process::exit(if hit { 1 } else { 0 });
+    }
+    if !args.extra.contains_key("supervised") {
+        // The exploration runs in a child process: the subject executes inside the explorer's process,
+        // and a subject that corrupts memory under some interleaving takes the process down with it.
+        // The parent turns that into a verdict (the child names the model it is exploring in a side file).
+        let cur = format!("{}.cur", args.report);
+        let _ = std::fs::remove_file(&cur);
+        let _ = std::fs::remove_file(format!("{}.viol", cur));
+        let _ = std::fs::remove_file(&args.report);
+        let mut child = std::process::Command::new(std::env::current_exe().unwrap())
+            .args(std::env::args().skip(1))
+            .args(["--supervised", "1"])
+            .env("VERIF_SCHED_CUR", &cur)
+            .spawn()
+            .expect("spawn supervised child");
+        // the engine has its own budgets (2 x 120 s quick, 2 x 600 s thorough, plus the sampling lanes);
+        // far beyond them the child is stuck
+        let limit = std::time::Duration::from_secs(if args.thorough() { 3 * 3600 } else { 300 });
+        let t0 = std::time::Instant::now();
+        let st = loop {
+            match child.try_wait().expect("wait") {
+                Some(st) => break st,
+                None if t0.elapsed() > limit => {
+                    let _ = child.kill();
+                    let _ = child.wait();
+                    let what = std::fs::read_to_string(&cur).unwrap_or_default();
+                    let mut rep = Report::new(&args, "sched", "model_checking");
+                    rep.inc("evaluations");
+                    rep.inc("states");
+                    rep.inc("transitions");
+                    recorded_before_death(&cur, &mut rep);
+                    let key = "isolation:exploration-never-finishes";
+                    rep.violation(key, format!("the exploration did not finish within {} s (stuck while exploring: {})", limit.as_secs(), what.trim()),
+                        vcommon::serde_json::json!({"property": args.prop, "engine": "sched", "check": key, "model": what.trim()}));
+                    rep.cap("the exploration was killed at the supervisor's wall-clock limit");
+                    rep.write(&args.report);
+                    let _ = std::fs::remove_file(&cur);
+                    return;
+                }
+                None => std::thread::sleep(std::time::Duration::from_millis(100)),
+            }
+        };
+        if st.success() && std::path::Path::new(&args.report).exists() {
+            let _ = std::fs::remove_file(&cur);
+            let _ = std::fs::remove_file(format!("{}.viol", cur));
+            return;
+        }
+        use std::os::unix::process::ExitStatusExt;
+        match st.signal() {
+            Some(sig) => {
+                let what = std::fs::read_to_string(&cur).unwrap_or_default();
+                let mut rep = Report::new(&args, "sched", "model_checking");
+                rep.inc("evaluations");
+                rep.inc("states");
+                rep.inc("transitions");
+                recorded_before_death(&cur, &mut rep);
+                let key = "isolation:crash-under-exploration";
+                rep.violation(key, format!("the process is killed by signal {} while exploring: {}", sig, what.trim()),
+                    vcommon::serde_json::json!({"property": args.prop, "engine": "sched", "check": key, "model": what.trim(), "signal": sig}));
+                rep.cap("the exploration ended when the subject crashed");
+                rep.write(&args.report);
+                let _ = std::fs::remove_file(&cur);
+            }
+            None => std::process::exit(st.code().unwrap_or(2)),
+        }
+        return;
     }
     let mut rep = Report::new(&args, "sched", "model_checking");
     run(&args, &mut rep);
     rep.write(&args.report);
+}
+
+/// Violations the child recorded before it died.
+fn recorded_before_death(cur: &str, rep: &mut Report) {
+    if let Ok(t) = std::fs::read_to_string(format!("{}.viol", cur)) {
+        for line in t.lines() {
+            if let Ok(x) = vcommon::serde_json::from_str::<Value>(line) {
+                rep.violation(x["key"].as_str().unwrap_or("?"), x["summary"].as_str().unwrap_or("").to_string(), x["replay"].clone());
+            }
+        }
+    }
+    let _ = std::fs::remove_file(format!("{}.viol", cur));
+}
+
+/// Name the model about to be explored (read by the supervising parent if the process dies).
+pub fn set_current(what: &str) {
+    if let Ok(p) = std::env::var("VERIF_SCHED_CUR") {
+        let _ = std::fs::write(p, what);
+    }
 }
 
 fn run(args: &Args, rep: &mut Report) {
@@ -199,7 +313,7 @@ fn run(args: &Args, rep: &mut Report) {
             rust_side::c18(args, rep);
             set_phase_budget(if args.thorough() { 600 } else { 120 });
             cside::c18(args, rep);
-            rep.rule = "two and three controlled threads, each running a complete operation sequence (incremental hashing, extended output with seeks, one-shot calls; C: init/update/finalize_seek) on its own instances, interleaved at every kernel entry - and, on the C side, at every load and store of the feature cache, starting from UNDEFINED so that detection itself races - all interleavings by iterative context bounding: every model completely with at most 1 preemption, then with 2 (3 for pairs in the thorough tier) - in the quick tier only for models of at most 110 schedules at bound 1, in the thorough tier for all; kernel entries *and returns* are scheduling points; the Rust side runs on a copy of the crate's source in which every core::sync / std::sync atomic, lock and once-cell operation is a scheduling point as well; every thread's results must equal its results when run alone; on the Rust side every Platform::detect() call is additionally an environment choice that may answer any level up to the best one (all answer sequences with <= 2 deviations); plus N=16 real threads as the first calls of fresh processes (sampling, labelled so); states = distinct schedules / answer sequences; non-trivial = executions with >= 1 context switch or deviation".into();
+            rep.rule = "two and three controlled threads, each running a complete operation sequence (incremental hashing, extended output with seeks, one-shot calls; C: init/update/finalize_seek) on its own instances, interleaved at every kernel entry - and, on the C side, at every load and store of the feature cache, starting from UNDEFINED so that detection itself races - all interleavings by iterative context bounding: every model completely with at most 1 preemption, then with 2 (3 for pairs in the thorough tier) - in the quick tier only for models of at most 110 schedules at bound 1, in the thorough tier for all; kernel entries *and returns* are scheduling points; the Rust side runs on a copy of the crate's source in which every core::sync / std::sync atomic, lock and once-cell operation is a scheduling point as well; every thread's results must equal its results when run alone; on the Rust side every Platform::detect() call is additionally an environment choice that may answer any level up to the best one (all answer sequences with <= 2 deviations); plus N=16 real threads as the first calls of fresh processes, and twelve tasks of one rayon pool calling update_rayon on their own hashers at the same time in a child process with a 60 s limit (both sampling, labelled so); states = distinct schedules / answer sequences; non-trivial = executions with >= 1 context switch or deviation".into();
             rep.assumptions.push("the cpufeatures crate's own atomics are not intercepted; they are over-approximated by letting detect() answer any level".into());
         }
         _ => {
